@@ -544,7 +544,72 @@ async def proxy_sample(loop, ctx):
     return cases
 
 
+async def frontend_stage(loop, ctx):
+    """Sentences with literals (sizes 0 included) go through the real
+    front-end process code (server.IMAPClient.start), which re-assembles the
+    command from lines and literals; what it relays must be read by the real
+    parser with the meaning the reference reader gives the original."""
+    from . import c19
+
+    rnd = rng(ctx["seed"], "c08fe", ctx["script"])
+    cx = ctx["counts"]
+    cases = []
+    for i in range(ctx.get("fe_n", 60)):
+        sent = None
+        for _ in range(40):
+            cand = gen_sentence(rnd)
+            if "{" in cand and "\r\n" in cand:
+                sent = cand
+                break
+        if sent is None:
+            continue
+        try:
+            ast0 = canon_flags_in_ast(refparse.read(sent))
+        except (refparse.NotSentence, RecursionError):
+            continue
+        stream = (sent + "\r\n").encode("latin-1", "replace")
+        if stream.decode("latin-1") != sent + "\r\n":
+            continue
+        cuts = c19.cuts_for(rnd, stream, rnd.choice(["none", "single", "some"]))
+        sub, cli, err = await c19.run_frontend(stream, cuts, 10 * 1024 * 1024)
+        cx["frontend_sentences"] += 1
+        if "{0}" in sent or "{0+}" in sent:
+            cx["frontend_sentences_with_empty_literal"] += 1
+        key = common.h(sent)
+        sample = {"input": sent[:160], "origin": "frontend"}
+        if err:
+            cases.append(Case.make("fe:" + key, INCONCLUSIVE, spec=dict(ctx["spec"]), reason="front-end harness: " + err))
+            continue
+        frames, ferr = c19.deframe(sub)
+        texts = [f.decode("latin-1") for f in frames]
+        problem = None
+        if ferr or len(texts) != 1:
+            problem = ("frontend-relayed-other-than-one-command", f"{len(texts)} frame(s) {[t[:60] for t in texts[:3]]} {ferr or ''}; to client: {bytes(cli)[-120:]!r}")
+        else:
+            # what the parser makes of the relayed text must be what it makes of the
+            # sentence itself (its own findings are judged by the parser shards)
+            ev0 = evaluate(sent)
+            ev = evaluate(texts[0])
+            if (ev.get("kind"), ev.get("mech"), ev.get("fields"), ev.get("accepted")) != (ev0.get("kind"), ev0.get("mech"), ev0.get("fields"), ev0.get("accepted")):
+                problem = ("relayed-command-" + str(ev.get("kind") or "read-differently"), f"relayed {texts[0][:120]!r}: {ev.get('detail')} (the sentence itself: {ev0.get('kind')})")
+            else:
+                try:
+                    ast1 = canon_flags_in_ast(refparse.read(texts[0]))
+                except (refparse.NotSentence, RecursionError) as e:
+                    ast1 = None
+                if ast1 != ast0:
+                    problem = ("relayed-command-means-something-else", f"sent {sent[:100]!r}, relayed {texts[0][:100]!r}")
+        if problem:
+            cases.append(Case.make("fe:" + key, VIOLATED, spec=dict(ctx["spec"]), nontrivial=True, key=key, sample=sample,
+                                   witness={"kind": problem[0], "detail": problem[1], "input": sent[:400], "origin": "frontend", "mech": None, "fields": None, "exc": None, "name": None}))
+        else:
+            cases.append(Case.make("fe:" + key, HELD, spec=None, nontrivial=True, key=key, sample=sample))
+    return cases
+
+
 def run_shard(spec):
+    if spec.get("mode") == "frontend":
+        return base.run_scripts(spec, frontend_stage, user_kwargs={"fe_n": spec.get("fe_n", 60)})
     if spec.get("mode") == "proxy":
         return base.run_scripts(spec, proxy_sample, user_kwargs={"proxy_n": spec.get("proxy_n", 60)})
     rnd = rng(spec["seed"], "c08", spec["shard"])
@@ -602,6 +667,8 @@ def plan(tier, seed, scale):
     specs = [{"prop": PROP, "tier": tier, "seed": seed, "shard": s, "n": n, "scripts": [s]} for s in range(shards)]
     for s in range(2 if tier == "quick" else 8):
         specs.append({"prop": PROP, "tier": tier, "seed": seed, "shard": 100 + s, "mode": "proxy", "scripts": [100 + s], "proxy_n": 80 if tier == "quick" else 400})
+    for s in range(2 if tier == "quick" else 8):
+        specs.append({"prop": PROP, "tier": tier, "seed": seed, "shard": 200 + s, "mode": "frontend", "scripts": [200 + s], "fe_n": 120 if tier == "quick" else 1500})
     return specs
 
 
